@@ -132,6 +132,9 @@ func (self *BinaryConv) doRecurse(ctx context.Context, s string, jp int, desc *t
 					return ret, err
 				}
 				return ret, p.WriteDouble(dv)
+			} else {
+				// a JSON string for any other thrift type contradicts the descriptor
+				return ret, newError(meta.ErrDismatchType, fmt.Sprintf("expect type %s but got json string", desc.Type()), nil)
 			}
 
 		case types.V_ARRAY:
